@@ -383,7 +383,8 @@ fn caller(p: &Profile) -> BoxedStrategy<Caller> {
         ]
         .boxed()
     } else {
-        (0u8..8).prop_map(Caller::User).boxed()
+        // mostly plain users; now and then a 32-byte (contract-style) account, which must name a recipient
+        prop_oneof![12 => (0u8..8).prop_map(Caller::User), 1 => Just(Caller::Contract32)].boxed()
     }
 }
 
